@@ -261,7 +261,7 @@ theorem ops_refine {k : Cfg} {N : Int} (h : WF k N) :
 /-- The reader leaves its cursor at frame 0 after opening (`self.seek(0)` at the
 end of `__init__`), so `ops_refine` applies from `c = 0`. -/
 theorem open_at_zero {k : Cfg} {N : Int} (h : WF k N) (pos : Int)
-    (hpos : k.data ≤ pos) (hpos' : pos ≤ k.dend) :
+    (_hpos : k.data ≤ pos) (_hpos' : pos ≤ k.dend) :
     seek k pos 0 0 = some (k.data + k.A * 0) := by
   have := h.hsize; have := h.hA; have hN := h.hN
   have : 0 ≤ k.A * N := Int.mul_nonneg (Int.le_of_lt h.hA) hN
@@ -272,10 +272,242 @@ theorem open_at_zero {k : Cfg} {N : Int} (h : WF k N) (pos : Int)
     · omega
     · rfl
 
+/-! ### block iteration, composed: a statement about the MODEL run -/
+
+/-- **Block iteration yields the remaining frames exactly once (model run).**  On a well-formed file, with block
+size `≥ 1`, `list(iter_sample_blocks(bs))` started with the cursor at frame `c` leaves the buffer at the end of the
+data (`data + A·N`) and returns byte ranges that are the frame ranges `fs` of a chain `c → N` without gap or overlap,
+each non-empty and at most `bs` frames long (`ops_refine`/`iter_refines` composed with `specIter_tiles`). -/
+theorem iter_model_tiles {k : Cfg} {N : Int} (h : WF k N) (bs : Int) (hbs : 1 ≤ bs) (c : Int) (hc0 : 0 ≤ c)
+    (hcN : c ≤ N) :
+    (iter k bs ((len k).toNat + 1) (k.data + k.A * c)).1 = k.data + k.A * N ∧
+    ∃ fs, RRanges k (iter k bs ((len k).toNat + 1) (k.data + k.A * c)).2 fs ∧ Chain c fs N ∧ ∀ f ∈ fs, f.2 ≤ bs := by
+  have hi := iter_refines h bs hbs ((len k).toNat + 1) c hc0 hcN
+  simp only at hi
+  rw [len_eq h] at hi ⊢
+  obtain ⟨i1, -, -, i4⟩ := hi
+  have hN := h.hN
+  obtain ⟨t1, t2, t3⟩ := specIter_tiles N bs hbs (N.toNat + 1) c hc0 hcN (by omega)
+  rw [t1] at i1
+  exact ⟨i1, _, i4, t2, t3⟩
+
+/-- the same for the operation `iter bs` inside a run -/
+theorem step_iter_tiles {k : Cfg} {N : Int} (h : WF k N) (bs : Int) (hbs : 1 ≤ bs) (c : Int) (hc0 : 0 ≤ c)
+    (hcN : c ≤ N) :
+    ∃ rs fs, step k (k.data + k.A * c) (.iter bs) = (k.data + k.A * N, .blocks rs) ∧
+      RRanges k rs fs ∧ Chain c fs N ∧ ∀ f ∈ fs, f.2 ≤ bs := by
+  obtain ⟨a, fs, b1, b2, b3⟩ := iter_model_tiles h bs hbs c hc0 hcN
+  refine ⟨_, fs, ?_, b1, b2, b3⟩
+  simp only [step]
+  rw [← a]
+
+/-! ### the lazy generator -/
+
+/-- generator operations within the quantifier: a generator's block size is `≥ 0` (`next` on a generator with
+block size 0 yields empty blocks; only *exhausting* such a generator hangs, which is `OpOK (.iter bs)`'s `1 ≤ bs`) -/
+def GOpOK : GOp → Prop
+  | .op o => OpOK o
+  | .mk bs => 0 ≤ bs
+  | .next _ => True
+
+def RBlock (k : Cfg) : Option (Int × Int) → Option (Int × Int) → Prop
+  | some r, some f => r.1 = k.data + k.A * f.1 ∧ r.2 = k.A * f.2
+  | none, none => True
+  | _, _ => False
+
+def RGOut (k : Cfg) : GOut → GOut → Prop
+  | .out a, .out b => ROut k a b
+  | .made i, .made j => i = j
+  | .block r, .block f => r.1 = k.data + k.A * f.1 ∧ r.2 = k.A * f.2
+  | .stop, .stop => True
+  | .noGen, .noGen => True
+  | _, _ => False
+
+def RGOuts (k : Cfg) : List GOut → List GOut → Prop
+  | [], [] => True
+  | o :: os, s :: ss => RGOut k o s ∧ RGOuts k os ss
+  | _, _ => False
+
+/-- `next(g)` yields frames `[c, min (c + bs) N)` of the cursor at the time of the call, or stops (for good) when
+the cursor is at `N`; the generator states of model and specification stay equal. -/
+theorem gnext_refines {k : Cfg} {N : Int} (h : WF k N) (g : Gen) (hg : 0 ≤ g.bs) (c : Int) (hc0 : 0 ≤ c)
+    (hcN : c ≤ N) :
+    (gnext k (k.data + k.A * c) g).1 = k.data + k.A * (specGnext N c g).1 ∧
+    0 ≤ (specGnext N c g).1 ∧ (specGnext N c g).1 ≤ N ∧
+    (gnext k (k.data + k.A * c) g).2.1 = (specGnext N c g).2.1 ∧ (specGnext N c g).2.1.bs = g.bs ∧
+    RBlock k (gnext k (k.data + k.A * c) g).2.2 (specGnext N c g).2.2 := by
+  unfold gnext specGnext
+  rw [tell_eq h.hA, len_eq h]
+  by_cases hd : g.done = true
+  · simp [hd, hc0, hcN, RBlock]
+  · simp only [hd, Bool.false_eq_true, ↓reduceIte]
+    by_cases hcN' : c = N
+    · simp [hcN', h.hN, RBlock]
+    · simp only [hcN', ↓reduceIte]
+      have hr := read_spec h c g.bs hc0 hcN hg
+      simp only at hr
+      obtain ⟨h1, h2, h3, h4, h5, -, -⟩ := hr
+      exact ⟨h1, h4, h5, by first | rfl | trivial, by first | rfl | trivial, h2, h3⟩
+
+/-- **C18 (refinement, with lazily consumed generators).**  Operation sequences may create any number of
+generators and interleave `next` on any of them with seek/read/tell/full iteration: the byte-level reader and the
+list-plus-cursor specification stay related, and their generator tables stay equal. -/
+theorem gops_refine {k : Cfg} {N : Int} (h : WF k N) :
+    ∀ (ops : List GOp) (c : Int) (gens : List Gen), 0 ≤ c → c ≤ N → (∀ g ∈ gens, 0 ≤ g.bs) →
+      (∀ op ∈ ops, GOpOK op) →
+      (grun k (k.data + k.A * c, gens) ops).1.1 = k.data + k.A * (specGrun N (c, gens) ops).1.1 ∧
+      0 ≤ (specGrun N (c, gens) ops).1.1 ∧ (specGrun N (c, gens) ops).1.1 ≤ N ∧
+      (grun k (k.data + k.A * c, gens) ops).1.2 = (specGrun N (c, gens) ops).1.2 ∧
+      RGOuts k (grun k (k.data + k.A * c, gens) ops).2 (specGrun N (c, gens) ops).2 := by
+  intro ops
+  induction ops with
+  | nil => intro c gens hc0 hcN _ _; simp [grun, specGrun, hc0, hcN, RGOuts]
+  | cons op ops ih =>
+    intro c gens hc0 hcN hgens hok
+    have hop : GOpOK op := hok op (by simp)
+    have hops : ∀ o ∈ ops, GOpOK o := fun o ho => hok o (by simp [ho])
+    have hstep : (gstep k (k.data + k.A * c, gens) op).1.1 = k.data + k.A * (specGstep N (c, gens) op).1.1 ∧
+        0 ≤ (specGstep N (c, gens) op).1.1 ∧ (specGstep N (c, gens) op).1.1 ≤ N ∧
+        (gstep k (k.data + k.A * c, gens) op).1.2 = (specGstep N (c, gens) op).1.2 ∧
+        (∀ g ∈ (specGstep N (c, gens) op).1.2, 0 ≤ g.bs) ∧
+        RGOut k (gstep k (k.data + k.A * c, gens) op).2 (specGstep N (c, gens) op).2 := by
+      cases op with
+      | op o =>
+        have := ops_refine h [o] c hc0 hcN (by intro x hx; rw [List.mem_singleton.1 hx]; exact hop)
+        simp only [run, specRun, ROuts, and_true] at this
+        obtain ⟨a1, a2, a3, a4⟩ := this
+        simp only [gstep, specGstep]
+        exact ⟨a1, a2, a3, by first | rfl | trivial, hgens, a4⟩
+      | mk bs =>
+        simp only [gstep, specGstep, RGOut]
+        refine ⟨by first | rfl | trivial, hc0, hcN, by first | rfl | trivial, ?_, by first | rfl | trivial⟩
+        intro g hg
+        rcases List.mem_append.1 hg with hg | hg
+        · exact hgens g hg
+        · rw [List.mem_singleton.1 hg]; exact hop
+      | next i =>
+        simp only [gstep, specGstep]
+        cases hgi : gens[i]? with
+        | none => simp [hc0, hcN, RGOut]; exact hgens
+        | some g =>
+          have hgm : g ∈ gens := List.mem_of_getElem? hgi
+          obtain ⟨b1, b2, b3, b4, b5, b6⟩ := gnext_refines h g (hgens g hgm) c hc0 hcN
+          simp only
+          refine ⟨b1, b2, b3, by rw [b4], ?_, ?_⟩
+          · intro g' hg'
+            rcases List.mem_or_eq_of_mem_set hg' with hg' | hg'
+            · exact hgens g' hg'
+            · rw [hg', b5]; exact hgens g hgm
+          · revert b6
+            cases (gnext k (k.data + k.A * c) g).2.2 <;> cases (specGnext N c g).2.2 <;> simp [RBlock, RGOut]
+    obtain ⟨s1, s2, s3, s4, s5, s6⟩ := hstep
+    have ih' := ih (specGstep N (c, gens) op).1.1 (specGstep N (c, gens) op).1.2 s2 s3 s5 hops
+    obtain ⟨i1, i2, i3, i4, i5⟩ := ih'
+    simp only [grun, specGrun, RGOuts]
+    have e : (gstep k (k.data + k.A * c, gens) op).1 =
+        (k.data + k.A * (specGstep N (c, gens) op).1.1, (specGstep N (c, gens) op).1.2) := by
+      rw [← s1, ← s4]
+    rw [e]
+    exact ⟨i1, i2, i3, i4, s6, i5⟩
+
+/-- A `for` loop over a fresh generator (`next` until `StopIteration`, nothing in between) is the eager `iter`. -/
+theorem drain_eq_iter (k : Cfg) (bs : Int) : ∀ (fuel : Nat) (pos : Int),
+    (drain k fuel pos ⟨bs, false⟩).1 = (iter k bs fuel pos).1 ∧
+    (drain k fuel pos ⟨bs, false⟩).2.2 = (iter k bs fuel pos).2 := by
+  intro fuel
+  induction fuel with
+  | zero => intro pos; simp [drain, iter]
+  | succ fuel ih =>
+    intro pos
+    simp only [drain, iter, gnext, Bool.false_eq_true, ↓reduceIte]
+    by_cases ht : tell k pos = len k
+    · simp [ht]
+    · simp only [ht, ↓reduceIte]
+      obtain ⟨a, b⟩ := ih (read k pos bs).1
+      simp [a, b]
+
+/-! ### the excluded point `WF.hsize`: a data chunk that does not hold whole frames
+
+A file whose data chunk size is `A·N + r` with `0 < r < A` (never produced by the writer, but accepted by the
+reader) has `len = N` (floor), and `position.end = data + A·N + r` is not a frame boundary: a seek relative to the
+end — or any seek clamped to the end — puts the buffer *between* frames, `tell` floors it, and a following `read`
+returns `A` bytes that straddle two frames.  So the cursor abstraction fails there; `ops_refine` assumes
+`k.size = k.A * N` for this reason. -/
+
+theorem ragged_len {k : Cfg} {N r : Int} (hA : 0 < k.A) (hr0 : 0 ≤ r) (hr : r < k.A) (hs : k.size = k.A * N + r) :
+    len k = N := by
+  unfold len
+  rw [hs, Int.add_comm, Int.add_mul_ediv_left _ _ (Int.ne_of_gt hA), Int.ediv_eq_zero_of_lt hr0 hr, Int.zero_add]
+
+/-- **Excluded point.**  In a ragged file, after `seek(0, 2); seek(-1, 1)` the reader says `tell() = N - 1` and
+`read(1)` returns the `A` bytes starting `r` bytes *into* frame `N - 1` — not a frame of the file. -/
+theorem ragged_not_cursor {k : Cfg} {N r : Int} (hA : 0 < k.A) (hN : 1 ≤ N) (hr0 : 0 < r) (hr : r < k.A)
+    (hs : k.size = k.A * N + r) (hfile : k.data + k.size ≤ k.fileLen) (pos0 : Int) :
+    (run k pos0 [.seek 0 2, .seek (-1) 1, .tell, .read 1]).2 =
+      [.unit, .unit, .pos (N - 1), .bytes (k.data + k.A * (N - 1) + r, k.A)] := by
+  have hlen := ragged_len hA (Int.le_of_lt hr0) hr hs
+  have hAN : k.A * 1 ≤ k.A * N := Int.mul_le_mul_of_nonneg_left hN (Int.le_of_lt hA)
+  have hpos1 : seek k pos0 0 2 = some (k.data + k.A * N + r) := by
+    simp only [seek, Cfg.dend, hs]
+    have : (2 : Int) ≠ 0 := by decide
+    have : (2 : Int) ≠ 1 := by decide
+    simp only [*, ↓reduceIte, Int.zero_mul, Int.add_zero]
+    split
+    · omega
+    · split
+      · omega
+      · congr 1; omega
+  have hpos2 : seek k (k.data + k.A * N + r) (-1) 1 = some (k.data + k.A * (N - 1) + r) := by
+    simp only [seek, Cfg.dend, hs]
+    have : (1 : Int) ≠ 0 := by decide
+    simp only [*, ↓reduceIte]
+    have e : k.A * (N - 1) = k.A * N - k.A := by rw [Int.mul_sub, Int.mul_one]
+    rw [e]
+    generalize k.A * N = x at *
+    split
+    · omega
+    · split
+      · omega
+      · congr 1; omega
+  have htell : tell k (k.data + k.A * (N - 1) + r) = N - 1 := by
+    unfold tell
+    have : k.data + k.A * (N - 1) + r - k.data = r + k.A * (N - 1) := by omega
+    rw [this, Int.add_mul_ediv_left _ _ (Int.ne_of_gt hA), Int.ediv_eq_zero_of_lt (Int.le_of_lt hr0) hr, Int.zero_add]
+  have hread : read k (k.data + k.A * (N - 1) + r) 1 =
+      (k.data + k.A * (N - 1) + r + k.A, (k.data + k.A * (N - 1) + r, k.A)) := by
+    have hp : k.data + k.A * (N - 1) + r + k.A ≤ k.fileLen := by
+      have e : k.A * (N - 1) = k.A * N - k.A := by rw [Int.mul_sub, Int.mul_one]
+      rw [hs] at hfile; rw [e]; omega
+    generalize k.data + k.A * (N - 1) + r = p at *
+    simp only [read, htell, hlen, bufRead]
+    have h1 : ¬ (N - 1 + 1 > N) := by omega
+    simp only [h1, ↓reduceIte, Int.one_mul]
+    repeat' split
+    all_goals first | (exfalso; omega) | (simp only [Prod.mk.injEq, true_and] <;> omega)
+  simp only [run, step, hpos1, hpos2, hread, htell]
+
 /-! Non-vacuity: a concrete 3-frame, 2-channel 16-bit file (`A = 4`) meets `WF`,
 and a concrete op sequence meets `OpOK`; the model evaluates on it. -/
 example : WF ⟨44, 4, 12, 56⟩ 3 := ⟨by decide, by decide, by decide, by decide⟩
 example : (run ⟨44, 4, 12, 56⟩ 44 [.seek 5 0, .tell, .seek (-2) 1, .read 7, .tell, .seek 0 0, .iter 2]).2
     = [.unit, .pos 3, .unit, .bytes (48, 8), .pos 3, .unit, .blocks [(44, 8), (52, 4)]] := by decide
+
+
+/-- generators: two generators over the 3-frame file, `next` interleaved with a seek and a read; the second
+generator is finished by a `next` at the end and stays finished after the cursor is moved back -/
+example : (grun ⟨44, 4, 12, 56⟩ (44, []) [.mk 2, .mk 1, .next 0, .next 1, .op (.seek 0 0), .next 0, .op (.read 5), .next 1,
+      .op (.seek 0 0), .next 1, .next 0]).2
+    = [.made 0, .made 1, .block (44, 8), .block (52, 4), .out .unit, .block (44, 8), .out (.bytes (52, 4)), .stop,
+       .out .unit, .stop, .block (44, 8)] := by decide
+example : ∀ op ∈ ([.mk 2, .mk 0, .next 0, .op (.seek 0 0), .op (.iter 1)] : List GOp), GOpOK op := by
+  simp [GOpOK, OpOK]
+/-- the hypotheses of `ragged_not_cursor` on a concrete file: 3 frames of 4 bytes + 2 stray bytes -/
+example : (run ⟨44, 4, 14, 58⟩ 44 [.seek 0 2, .seek (-1) 1, .tell, .read 1]).2 =
+    [.unit, .unit, .pos (3 - 1), .bytes (44 + 4 * (3 - 1) + 2, 4)] :=
+  ragged_not_cursor (k := ⟨44, 4, 14, 58⟩) (N := 3) (r := 2) (by decide) (by decide) (by decide) (by decide)
+    (by decide) (by decide) 44
+/-- the excluded point, evaluated: 3 frames + 2 stray bytes (`size = 14`) -/
+example : (run ⟨44, 4, 14, 58⟩ 44 [.seek 0 2, .seek (-1) 1, .tell, .read 1]).2
+    = [.unit, .unit, .pos 2, .bytes (54, 4)] := by decide
 
 end Earverif.Cursor
